@@ -452,7 +452,7 @@ class FormulaMaterializer(metaclass=FormulaMaterializerMeta):
                             [
                                 evaled_factor.values
                                 for evaled_factor in evaled_factors
-                                if evaled_factor.metadata.kind.value
+                                if evaled_factor.metadata.kind
                                 is Factor.Kind.CONSTANT
                             ],
                             1,
